@@ -503,7 +503,8 @@ struct Cb;
 impl rustc_driver::Callbacks for Cb {
     fn after_analysis<'tcx>(&mut self, _c: &rustc_interface::interface::Compiler, tcx: TyCtxt<'tcx>) -> Compilation {
         let krate = tcx.crate_name(rustc_hir::def_id::LOCAL_CRATE).to_string();
-        if krate != "bumpalo" { return Compilation::Continue; }
+        let want = std::env::var("BUMPSCAN_CRATE").unwrap_or_else(|_| "bumpalo".into());
+        if krate != want { return Compilation::Continue; }
         let cx = Cx { tcx };
         let mut out = String::from("{\"bodies\":[\n");
         let mut n = 0;
